@@ -86,6 +86,16 @@ func versionEvaluator(c *Ctx, sc verScenario, header bool) *symEval {
 			return b(sc.named == pos)
 		}
 		// a helper's parameter that received the name
+		// every stored version begins with '/' (the constructor sees to it), so a path that begins with a version is not
+		// empty and begins with '/': pre-filters on exactly that are implied by the contract
+		if sc.match {
+			switch e {
+			case "EQ(LEN(PATH),CONST:0)", `EQ(PATH,CONST:"")`, "NE(ELEM(PATH),CONST:47)", "LT(LEN(PATH),CONST:1)":
+				return -1
+			case "NE(LEN(PATH),CONST:0)", "GT(LEN(PATH),CONST:0)", `NE(PATH,CONST:"")`, "EQ(ELEM(PATH),CONST:47)", "GE(LEN(PATH),CONST:1)":
+				return 1
+			}
+		}
 		switch e {
 		case "HASPREFIX(PATH,VER)":
 			return b(sc.match)
